@@ -443,11 +443,14 @@ class ConfigParser(object):
   def _set_item(self, cp, override):
     try:
       cp[override.section][override.key] = override.value.strip()
-    except ValueError as e:
-      # e.g. a stray '$': the parser refuses values whose placeholder syntax it could not read from a file either
-      raise ConfigOverrideException(
-        "Entry [{section}]: '{key}' cannot take the value '{value}': {msg}".format(
-        section = override.section, key = override.key, value = override.value, msg = e))
+    except ValueError:
+      # e.g. a stray '$'. A file may hold such a value: the placeholder syntax is only looked at (and reported as a
+      # configuration error) when the value is read. Store it the way the file reader does, without validating it now.
+      if override.section == cp.default_section:
+        items = cp._defaults
+      else:
+        items = cp._sections[override.section]
+      items[cp.optionxform(override.key)] = override.value.strip()
 
   def _check_for_duplicates(self):
     self._check_for_duplicate_sections()
